@@ -20,7 +20,7 @@ from ..stats import jsonable
 ID = "C04"
 SHARDS = {"quick": 16, "thorough": 16}
 RULE = ("Hypothesis draws a subset and order of the 21 keys, a strain field on a rational grid (n/8, classes generic / two "
-        "columns equal / all equal, so fractions are equal or well separated), an axis permutation and a small spectrum; "
+        "columns equal / all equal, so fractions are equal or well separated), an axis permutation and a small spectrum; the same field is also handed over as an int64 array of whole numbers (only the ratios enter); "
         "non-trivial = the request contains a shear key together with another requested shear key it depends on "
         "(45,46,56,14..36 with 44/55/66) or lists a dependent key before its dependency, or a non-identity axis permutation; "
         "distinct by (keys in order, strain, permutation, seed)")
